@@ -430,15 +430,15 @@ func rmgrName(rmid uint8) string {
 		RM_HEAP_ID:       "Heap",
 		RM_BTREE_ID:      "BTree",
 		RM_HASH_ID:       "Hash",
-		RM_GIN_ID:        "GIN",
-		RM_GIST_ID:       "GiST",
+		RM_GIN_ID:        "Gin",
+		RM_GIST_ID:       "Gist",
 		RM_SEQ_ID:        "Sequence",
-		RM_SPGIST_ID:     "SP-GiST",
+		RM_SPGIST_ID:     "SPGist",
 		RM_BRIN_ID:       "BRIN",
-		RM_COMMIT_TS_ID:  "CommitTS",
-		RM_REPLORIGIN_ID: "ReplOrigin",
+		RM_COMMIT_TS_ID:  "CommitTs",
+		RM_REPLORIGIN_ID: "ReplicationOrigin",
 		RM_GENERIC_ID:    "Generic",
-		RM_LOGICALMSG_ID: "LogicalMsg",
+		RM_LOGICALMSG_ID: "LogicalMessage",
 	}
 	if name, ok := names[rmid]; ok {
 		return name
